@@ -5,7 +5,7 @@
 cd /verif
 R=${ROUND:-1}
 for p in "$@"; do
-  W=/tmp/seed/$p; [ "$R" = 2 ] && W=/tmp/seed/${p}r2
+  W=/tmp/seed/$p; [ "$R" != 1 ] && W=/tmp/seed/${p}r$R
   for n in 1 2; do
     [ -f $W/seed$n.diff ] || { echo "$p: seed$n.diff missing"; continue; }
     m=$(( n + 2 * (R - 1) ))
